@@ -14,7 +14,7 @@ if ! git apply "$SD/patch.diff" 2>/tmp/seedcheck-apply.err; then echo "SEED $SD 
 PYTHONPATH="$WT/lib" /venv/bin/python -c "import sqlalchemy" 2>/dev/null || { echo "SEED $SD property=$PID IMPORT-FAILED"; exit 7; }
 PYTHONPATH="$WT/lib" timeout 300 /venv/bin/python "$SD/demo.py" >/dev/null 2>&1; D1=$?
 cd /verif
-OUT=$(VERIF_REPO_LIB="$WT/lib" PYTHONPATH="$WT/lib" timeout 3000 ./vcheck "$PID" --tier "$TIER" 2>&1); RC=$?
+OUT=$(VERIF_OUT_DIR=/tmp/seedcheck-out VERIF_REPO_LIB="$WT/lib" PYTHONPATH="$WT/lib" timeout 3000 ./vcheck "$PID" --tier "$TIER" 2>&1); RC=$?
 NV=$(echo "$OUT" | grep -c "^VIOLATION")
 FIRST=$(echo "$OUT" | grep "^VIOLATION" | head -1 | cut -c1-260)
 echo "SEED $(basename $SD) property=$PID demo_clean=$D0 demo_patched=$D1 check_exit=$RC violations=$NV :: $FIRST"
